@@ -126,6 +126,19 @@ def r02d(P, R):
     R.check("R02-d", "typename-value", ok, "__typename: \"<object name>\"", "__typename literal is not the object's name", loc=f.loc())
 
 
+def _src_nodes(pv, e):
+    """all nodes of `e` and, transitively, of the initialisers of the locals it mentions"""
+    out, todo, seen = [], [e], set()
+    while todo:
+        n = todo.pop()
+        for y in subnodes(n):
+            out.append(y)
+            if y.get("k") == "Path" and "local" in y and y["local"] not in seen:
+                seen.add(y["local"])
+                todo.extend(src for src, _ in pv.src.get(y["local"], []) if src is not None)
+    return out
+
+
 def r02e(P, R):
     """merging of same-key fields: a field skipped in one occurrence but selected in another is present"""
     f = P.fn(OT + "deep_merge::merge_fields")
@@ -157,6 +170,31 @@ def r02e(P, R):
     ok = any((call_name(c) or "") == f.path for c in d.walk() if c.get("k") == "Call")
     R.check("R02-e", "merge-used", ok, "duplicate keys are merged through merge_fields", "deep_merge_selection_tree does not merge duplicates through merge_fields", loc=d.loc())
     n = recursion_discipline(P, R, "R02-e", [P.fn(OT + "deep_merge::merge_selection_trees")])
+    # branch pairing: the partner of a left branch is looked up by type name over the whole right side, never by position
+    g = P.fn(OT + "deep_merge::merge_selection_trees")
+    gpv = Prov(g)
+    BR = OT + "selection_tree::SelectionTreeBranch"
+    partner = [m for m in g.walk() if m.get("k") == "Match" and not m.get("x") and m.get("src") == "Normal"
+               and "Option<" in str(m["scrut"].get("t", "")) and "SelectionTreeBranch" in str(m["scrut"].get("t", ""))
+               and not (call_name(m["scrut"]) or "").endswith("Iterator::next")]
+    R.floor("R02-e", "partner-branch lookups in merge_selection_trees", len(partner), 1)
+    POSITIONAL = ("<[T]>::get", "<[T]>::first", "<[T]>::last", "Iterator::nth", "Iterator::zip", "Iterator::enumerate", "Index::index", "Vec<T, A>::pop")
+    for m in partner:
+        a = gpv.atoms(m["scrut"])
+        calls = {x[1] for x in gpv.data_atoms(m["scrut"]) if x[0] == "call"}
+        pos = sorted(c for c in calls if any(c.endswith(p) for p in POSITIONAL))
+        indexed = any(x.get("k") == "Index" for x in _src_nodes(gpv, m["scrut"]))
+        by_key = has_call(a, "find") and has_field(a, BR, "type_name")
+        R.check("R02-e", "branch-pairing", by_key and not pos and not indexed,
+                "the right-hand partner of a branch is found by `type_name` equality over all right branches",
+                "merge_selection_trees pairs branches %s (calls: %s): when one side has several branches per object type (one per "
+                "@skip/@include assignment) a branch is merged with the wrong partner or none, and loses the other occurrence's fields"
+                % ("by position" if pos or indexed else "without comparing type_name", pos or sorted(short(c) for c in calls)), loc=g.loc())
+    # leftover right branches are appended unless a branch of the same type is already present
+    anys = [c for c in g.walk() if c.get("k") == "MethodCall" and c.get("method") == "any"]
+    ok = any(has_field(gpv.atoms(c), BR, "type_name") for c in anys)
+    R.check("R02-e", "branch-leftover", ok, "right-only branches are kept (presence tested by type_name)",
+            "merge_selection_trees does not test right-only branches by type_name before appending them", loc=g.loc())
 
 
 def r02f(P, R):
